@@ -218,6 +218,16 @@ func (x *Exec) Verify() (res *VerifyResult) {
 			}
 		}
 	}
+	// shared[P] f, g: fields written under the mutex by some method: other goroutines may change them whenever the
+	// mutex is not held, so they are havocked at every acquisition and exempt from this function's frame
+	x.shared = map[string]bool{}
+	for _, cl := range c.ByKind("shared") {
+		if x.prop == "" || cl.HasLabel(x.prop) {
+			for _, n := range cl.Names {
+				x.shared[n] = true
+			}
+		}
+	}
 	_ = sig
 	x.runBlock(fr, fn.Blocks[0], nil, st, func(s2 *State, results []SVal) {
 		x.returns++
@@ -398,6 +408,9 @@ func (x *Exec) atReturn(fr *Frame, c *Contract, entry, st *State, params, result
 					}
 				})
 			}
+		}
+		for o, ps := range x.sharedAt {
+			exempt[o] = append(exempt[o], ps...)
 		}
 		for o, s0 := range entry.mem {
 			if !o.Pre || whole[o] {
